@@ -354,6 +354,10 @@ def do_pure(w, op):
             else:
                 ran = False
         elif call == "anneal":
+            # the annealers read num_binary_variables / mapping themselves and hand them to C: look first (no extra observation),
+            # so that inconsistent bookkeeping is reported as such rather than as a crash of the worker
+            if A.is_model:
+                w.check_book(A, "before " + where, force=True)
             fn = {(True, True): qs.anneal_qubo, (True, False): qs.anneal_pubo, (False, True): qs.anneal_quso, (False, False): qs.anneal_puso}[
                 (b, maxlen <= 2 and A.t in ("dict", "QUBO", "QUSO", "QUBOMatrix", "QUSOMatrix"))]
             init = None
